@@ -1,5 +1,6 @@
 """C09 - interval intersection and union of event lists are exact
 (aw_transform/filter_period_intersect.py and the timeslot library it uses)"""
+import functools
 import itertools
 import json
 
@@ -10,6 +11,7 @@ U = 1000  # grid unit: 1 ms (Event timestamps have millisecond resolution)
 T0 = 1_600_000_000_000_000  # 2020-09-13T12:26:40Z, a multiple of 1 ms
 
 
+@functools.lru_cache(maxsize=None)
 def dat(tag, i):
     """data with a nested mutable value, so that a shallow copy is observable"""
     return json.dumps({"l": f"{tag}{i}", "n": [i]}, sort_keys=True, separators=(",", ":"))
@@ -138,6 +140,7 @@ def _mk(e, case, which):
 class C09(Prop):
     ID = "C09"
     MODULE = "AwProofs.Props.C09"
+    WORKERS = 12
     THEOREMS = [
         "AwProofs.C09.isect_sound",
         "AwProofs.C09.isect_complete",
@@ -218,23 +221,26 @@ class C09(Prop):
 
         # exhaustive small scope: intersection
         R, na, nf = ctx.pick((5, 2, 3), (6, 3, 3))
-        la = [o for l in canon_lists(R, na) for o in orders(l, rng)]
-        lf = [o for l in canon_lists(R, nf) for o in orders(l, rng)]
+        # (the event lists are built once per list and id variant and shared between cases)
+        la = [(grid_events(o, "a", False), grid_events(o, "a", True)) for l in canon_lists(R, na) for o in orders(l, rng)]
+        lf = [(grid_events(o, "f", False), grid_events(o, "f", True)) for l in canon_lists(R, nf) for o in orders(l, rng)]
         i = 0
         for a in la:
             for f in lf:
                 i += 1
-                out.append(("grid-isect", {"k": "isect", "a": grid_events(a, "a", i % 2 == 0), "f": grid_events(f, "f", i % 4 == 1)}))
+                out.append(("grid-isect", {"k": "isect", "a": a[i % 2 == 0], "f": f[i % 4 == 1]}))
 
         # exhaustive small scope: union of arbitrary lists
         R = ctx.pick(4, 5)
         ivs = [(s, e) for s in range(R + 1) for e in range(s, R + 1)]
         lists = [[]] + [[x] for x in ivs] + [[x, y] for x in ivs for y in ivs]
+        ua = [(grid_events(l, "a", False), grid_events(l, "a", True)) for l in lists]
+        ub = [(grid_events(l, "f", False), grid_events(l, "f", True)) for l in lists]
         i = 0
-        for a in lists:
-            for b in lists:
+        for a in ua:
+            for b in ub:
                 i += 1
-                out.append(("grid-union", {"k": "punion", "a": grid_events(a, "a", i % 2 == 0), "b": grid_events(b, "f", i % 4 == 1)}))
+                out.append(("grid-union", {"k": "punion", "a": a[i % 2 == 0], "b": b[i % 4 == 1]}))
 
         # seeded random, microsecond durations, structured
         def walk(n, tag, ids, touching):
